@@ -138,7 +138,7 @@ pub fn gen_c11(base_seed: u64, batch: &str, run: u64, rng: &mut Rng) -> Scenario
             5 => Op::Call { slot: call_slot, m: M::D0, x: rng.below(4) as u8, y: 0, catch: false, fault: Some(Fault::DebugPanic), keep: false },
             6 => Op::Own { slot: call_slot, which: OwnKind::Multi, x: 0, catch: false, die_with_value: false, fault: Some(Fault::ClonePanic) },
             // a mock-induced error whose message renders a long, non-ASCII argument
-            _ if rng.chance(1, 4) => Op::Call { slot: call_slot, m: M::D0, x: 3, y: 0, catch: false, fault: None, keep: false },
+            _ if rng.chance(1, 4) && !cfg.partial => Op::Call { slot: call_slot, m: M::D0, x: 3, y: 0, catch: false, fault: None, keep: false },
             _ => match pick_call(rng, &|p| p == Pred::MockPanic) {
                 Some((m, x, y)) => Op::Call { slot: call_slot, m, x, y, catch: false, fault: None, keep: false },
                 None => Op::Call { slot: call_slot, m: M::E0, x: 0, y: 0, catch: false, fault: None, keep: false },
@@ -184,7 +184,27 @@ fn gen_c11_caught(base_seed: u64, batch: &str, run: u64, rng: &mut Rng) -> Scena
     ho.fault_every = 2;
     ho.avoid_mock_panics = true;
     ho.finish_weights = [50, 35, 15];
-    let (threads, prelude) = gen_history(rng, &cfg, &ho);
+    let (mut threads, prelude) = gen_history(rng, &cfg, &ho);
+    let mut cfg = cfg;
+    if rng.chance(1, 3) {
+        // a multi-use return value whose Clone panics once (caught); the pattern must stay usable
+        cfg.specials = vec![Special::OwnMulti { quant: Quant::AtLeast(0), each_call: true, id: 102 }];
+        let own = |fault| Op::Own { slot: 0, which: OwnKind::Multi, x: 0, catch: true, die_with_value: false, fault };
+        let mut seq = vec![];
+        if rng.chance(1, 2) {
+            seq.push(own(None));
+        }
+        seq.push(own(Some(Fault::ClonePanic)));
+        for _ in 0..rng.range(1, 2) {
+            seq.push(own(None));
+        }
+        // somewhere between the prelude and thread 0's teardown operations
+        let end = threads[0].iter().position(|o| matches!(o, Op::Wait { .. } | Op::Drop { .. } | Op::Verify { .. } | Op::Report { .. })).unwrap_or(threads[0].len());
+        let at = rng.range(prelude.min(end), end);
+        for (k, o) in seq.into_iter().enumerate() {
+            threads[0].insert(at + k, o);
+        }
+    }
     Scenario {
         prop: "C11".into(),
         base_seed,
@@ -229,7 +249,29 @@ pub fn check_c11(scn: &Scenario) -> Checked {
                 probe(&mut stats, "caught_user_program_panic".into());
             }
         }
-        let any_user = res.log.calls.iter().any(|c| matches!(c.outcome, Some(Outcome::UserPanic(_))));
+        // a caught panic in the user's Clone of a multi-use return value: later requests still work
+        let mut clone_panicked = false;
+        for o in &res.log.ops {
+            let Some(Op::Own { fault, .. }) = scn.threads.get(o.thread as usize).and_then(|t| t.get(o.index as usize)) else { continue };
+            if fault.is_some() {
+                if matches!(o.result, OpResult::UserPanicked(_)) {
+                    clone_panicked = true;
+                    probe(&mut stats, "caught_clone_panic".into());
+                    *stats.faults.entry("clone_panic".into()).or_default() += 1;
+                }
+            } else if clone_panicked {
+                probe(&mut stats, "request_after_caught_clone_panic".into());
+                if !matches!(o.result, OpResult::Value(_)) {
+                    violations.push(v(
+                        "C11",
+                        "usable-after-caught-user-panic",
+                        "return-value-clone",
+                        format!("the Clone of a multi-use return value panicked once and the panic was caught; the next request of the same response must work, got {:?}", o.result),
+                    ));
+                }
+            }
+        }
+        let any_user = clone_panicked || res.log.calls.iter().any(|c| matches!(c.outcome, Some(Outcome::UserPanic(_))));
         let any_mock = res.log.calls.iter().any(|c| matches!(c.outcome, Some(Outcome::MockPanic(_))));
         for (o, op) in final_ops(scn, &res) {
             let Some(pre) = &o.pre else { continue };
